@@ -295,6 +295,16 @@ def scan_forbidden(files=None):
         txt = re.sub(r"\(\*.*?\*\)", "", txt, flags=re.S)
         for m in pat.finditer(txt):
             hits.append("%s: %s" % (f, m.group(1)))
+        # Variable / Hypothesis / Context outside a Section declare axioms
+        depth = 0
+        for line in txt.splitlines():
+            t = line.strip()
+            if re.match(r"(Section|Module)\s+[A-Za-z0-9_']+\s*\.", t) or re.match(r"Module\s+(Type\s+)?[A-Za-z0-9_']+.*\.$", t) and ":=" not in t:
+                depth += 1
+            elif re.match(r"End\s+[A-Za-z0-9_']+\s*\.", t):
+                depth = max(0, depth - 1)
+            elif depth == 0 and re.match(r"(Variables?|Hypothes[ie]s|Context)\b", t):
+                hits.append("%s: %s outside a Section" % (f, t[:40]))
     return hits
 
 
